@@ -293,6 +293,18 @@ func c11History(g *sim.Genesis) sim.History {
 	}, emptyBlocks(5)...)}
 }
 
+// belowMinimumHistory: delegatees whose OWN stake is positive but below the validator minimum while stakes stay bonded
+// to them: W (self 2R+1R, then the 2R stake released), and later V1/V2 when governance raises the minimum to 11 RIGO;
+// a validator that delegates to another validator.
+func belowMinimumHistory(g *sim.Genesis) sim.History {
+	return sim.History{Gen: g, Blocks: append([]sim.Block{
+		blk(stk("W", "W", "2R"), stk("W", "W", "1R"), stk("U0", "W", "1R")),
+		blk(unstk("W", "W", "W", 0), stk("V2", "V1", "2R")),
+		blk(prop("V0", 1, 1, 1, `{"minValidatorStake":"11000000000000000000"}`), stk("U1", "W", "1R")),
+		blk(vote("V0", 0, 0), vote("V1", 0, 0), vote("V2", 0, 0)),
+	}, emptyBlocks(5)...)}
+}
+
 func init() {
 	engine.Register("C11", func() engine.Check {
 		fams := append(sharedFamilies(),
@@ -301,10 +313,12 @@ func init() {
 			family{Name: "stakes/g3s", Base: func() sim.History { return c11History(genesis3s()) }, Menu: c11Menu(), WithEnv: true, NAppend: 3, MaxD: 2, MaxDTh: 2,
 				Core: coreAppend(blocksSet(2), 12, 2)},
 		)
+		fams = append(fams, family{Name: "stakes/self-below-minimum", Base: func() sim.History { return belowMinimumHistory(genesis3()) },
+			Menu: append(c11Menu(), stk("U1", "W", "1R"), unstk("W", "W", "W", 1), stk("W", "W", "1R"), unstk("U0", "U0", "W", 0), stk("V0", "V1", "1R")), WithEnv: true, NAppend: 1, MaxD: 1, MaxDTh: 2})
 		return &modelCheck{id: "C11", owners: map[string]bool{"C11": true}, families: fams, extra: stakeInvariants,
 			meta: modelMeta("deviation-bounded exhaustive history exploration with reference model + per-height invariants over the implementation's stake records",
-				"C11 families: stake-centred histories with up to 3 operations on the SAME delegatee in one block (stake, delegate, partial unstake, full unstake of the self stake forcing the delegators out, re-stake after deletion, second genesis stake), evidence (slashing incl. forfeiture) and jailing; D<=2 (thorough 3). "+
-					"Oracle at every height, read from the implementation: per delegatee TotalPower = sum of its stakes and SelfPower = sum of the owner's stakes; the stakes/total_power query equals the sum over all delegatees; every stake created by a successful staking transaction (keyed by its tx hash; genesis stakes by owner) is found in exactly one place - bonded under its delegatee or unbonding - with owner and target unchanged and power changed only by the slashing rule, until it is refunded.")}
+				"C11 families: stake-centred histories with up to 3 operations on the SAME delegatee in one block (stake, delegate, partial unstake, full unstake of the self stake forcing the delegators out, re-stake after deletion, second genesis stake), evidence (slashing incl. forfeiture) and jailing; D<=2 (thorough 3); a family with delegatees whose own stake is positive but below the validator minimum (partial release of the self stake; governance raising the minimum) and a validator delegating to another validator. "+
+					"Oracle at every height, read from the implementation: per delegatee TotalPower = sum of its stakes and SelfPower = sum of the owner's stakes; the stakes/total_power query for EVERY height (asked after the last block) equals the sum over all delegatees of that height; every stake created by a successful staking transaction (keyed by its tx hash; genesis stakes by owner) is found in exactly one place - bonded under its delegatee or unbonding - with owner and target unchanged and power changed only by the slashing rule, until it is refunded.")}
 	})
 }
 
@@ -353,20 +367,28 @@ func stakeInvariants(mc *modelCheck, mr *modelRun, h sim.History, res *engine.Re
 			out = append(out, g)
 		}
 	}
-	// total_power query at the last height
+	// total_power query for EVERY committed height (asked after the last block: the parameters in force by then may
+	// differ from those of the queried height), and for the latest height through height 0
 	if n := len(mr.Res.States); n > 0 && !mr.Res.Chain.Dead {
-		st := mr.Res.States[n-1]
-		sum := int64(0)
-		for _, d := range st.Delegatees {
-			for _, sk := range d.Stakes {
-				sum += sk.Power
+		for i, st := range mr.Res.States {
+			sum := int64(0)
+			for _, d := range st.Delegatees {
+				for _, sk := range d.Stakes {
+					sum += sk.Power
+				}
+			}
+			hs := []int64{int64(i + 1)}
+			if i == n-1 {
+				hs = append(hs, 0)
+			}
+			for _, hq := range hs {
+				_, resp := mr.Res.Chain.Query("stakes/total_power", nil, hq)
+				if string(resp.Value) != fmt.Sprint(sum) {
+					add(int64(i+1), "total-power-query", "stakes/total_power at height %d (asked as %d after block %d) answers %q, the stakes bonded at that height sum to %d", i+1, hq, n, string(resp.Value), sum)
+				}
+				res.Count("total_power_queries", 1)
 			}
 		}
-		_, resp := mr.Res.Chain.Query("stakes/total_power", nil, 0)
-		if string(resp.Value) != fmt.Sprint(sum) {
-			add(int64(n), "total-power-query", "height %d: stakes/total_power answers %q, the bonded stakes sum to %d", n, string(resp.Value), sum)
-		}
-		res.Count("total_power_queries", 1)
 	}
 	return out
 }
@@ -454,9 +476,21 @@ func init() {
 				return h
 			}, Menu: c13Menu(), WithEnv: true, NAppend: 1, MaxD: 1, MaxDTh: 2},
 		)
+		// the reward rate is a governance parameter: a passed proposal changes it in mid-history (with and without a new
+		// parameter version, raised and lowered); from the applying height on every signed block pays the new rate
+		for _, opt := range []string{`{"rewardPerPower":"11"}`, `{"rewardPerPower":"2","version":"2"}`} {
+			opt := opt
+			fams = append(fams, family{Name: "rewards/rate-changed-by-governance " + opt, Base: func() sim.History {
+				h := c13History(genesis3())
+				h.Blocks[2].Txs = append(h.Blocks[2].Txs, prop("V0", 1, 1, 1, opt))
+				h.Blocks[3].Txs = append(h.Blocks[3].Txs, vote("V0", 0, 0), vote("V1", 0, 0), vote("V2", 0, 0))
+				h.Blocks = append(h.Blocks, emptyBlocks(2)...)
+				return h
+			}, Menu: c13Menu(), WithEnv: true, NAppend: 1, MaxD: 1, MaxDTh: 2, Restarts: []int64{5, 6, 7}})
+		}
 		return &modelCheck{id: "C13", owners: map[string]bool{"C13": true}, balWhy: []string{"withdraw"}, families: fams,
 			meta: modelMeta("deviation-bounded exhaustive history exploration with reference model of reward issuance and withdrawal",
-				"C13 families: staking changes in blocks 2-3 (so that the 4-block provenance lag is crossed inside the 9-block horizon) x per-block signing patterns of the 3 validators (absent-signer slot of every block) x withdrawal requests {0, 1, exact, exact+1, twice in a block, excessive, by an account without rewards}; D<=2 (thorough 3). "+
+				"C13 families: staking changes in blocks 2-3 (so that the 4-block provenance lag is crossed inside the 9-block horizon) x per-block signing patterns of the 3 validators (absent-signer slot of every block) x withdrawal requests {0, 1, exact, exact+1, twice in a block, excessive, by an account without rewards}; D<=2 (thorough 3); two families in which a passed governance proposal changes rewardPerPower in mid-history (7->11 keeping the parameter version, 7->2 with a new version), with one restart around the applying height. "+
 					"Oracle: issuance in block B to owner O = sum over validators that signed B-1 of power x rewardPerPower over O's stakes in the stake list from which consensus derived that validator's voting power (version B-4; the genesis list for B<=4 - the harness knows the provenance because it IS the consensus engine); nobody else's record changes; withdrawable = issued - withdrawn at every height; a withdrawal succeeds only if requested <= withdrawable at that moment and credits exactly the requested amount.")}
 	})
 }
@@ -663,6 +697,9 @@ func c16Menu() []sim.TxSpec {
 		}
 	}
 	m = append(m, deploy("U0", counterInit, "0"))
+	// the block proposer itself takes part in a contract transaction (as sender, as value receiver, as deployer):
+	// the EVM's own coinbase accounting must stay switched off, the proposer is paid once, at the end of the block
+	m = append(m, deploy("V0", counterInit, "0"), call("V0", "contract:0", "", "0"), call("U1", "V0", "", "1R"), call("U1", "V1", "", "1R"), deploy("V1", counterInit, "1R"), call("V1", "contract:0", "", "1R"))
 	return m
 }
 
